@@ -28,6 +28,10 @@ func init() {
 				r.Rule("R13m", "MEMO-INVALIDATED: a struct field that memoizes a value computed from the rest of the struct is stored by every exported method that changes the struct (the predicted serialization size must describe the current forest)")
 				checkMemoInvalidated(p, r, "R13m")
 			}},
+			{ID: "R13o", Statement: "the restore function replaces what the receiver held", Run: func(p *Program, r *Report) {
+				r.Rule("R13o", "RESTORE-REPLACES: every store of the receiver (node store, leaf index) that the map forest's restore function refills with Put is emptied first - a call that deletes from it, or a new value stored into the field, dominates every such Put")
+				checkRestoreReplaces(p, r, "R13o", "(*MapPollard).Read", 2)
+			}},
 			{ID: "R13l", Statement: "the restore function takes over the header it reads", Run: func(p *Program, r *Report) {
 				r.Rule("R13l", "RESTORE-TAKES-THE-STREAM'S-HEADER: every field of the receiver that the map forest's restore function stores from a value read off the stream (allocated rows, leaf count) is stored on every path that goes on after the read - never only when the stream's value is larger than, or different from, what the receiver had")
 				checkRestoreTakesHeader(p, r, "R13l", "(*MapPollard).Read", 2)
